@@ -238,7 +238,13 @@ def run_bounded_reads(chk, F):
                         if pending is not None and bad is None:
                             bad = pending
                         if not bounded:
-                            if tag == 'FREAD':
+                            # only a filtration value that is not a number has a size the functor alone knows
+                            sized = not any(cx and not pol and re.search(r'is_arithmetic_v|is_trivially_copyable_v',
+                                                                         ir.show(c))
+                                            for c, pol, cx in p.conds if not isinstance(c, tuple))
+                            if tag == 'FREAD' and sized and bad is None:
+                                bad = node
+                            elif tag == 'FREAD':
                                 pending = node
                             elif bad is None:
                                 bad = node
@@ -581,6 +587,78 @@ def run_copy_counters(chk, F):
                        m, t[:40], ' and changed in the body' if rewritten else ''),
                    key='E1c|%s|%s|counter-copied' % (f['clsname'], m))
     chk.expect_count('E1c-counter-copied', 'counters in copy constructors of matrix-level classes', n, 4)
+
+
+def run_field_guards(chk, F):
+    """E1-field-unguarded: a data member whose declaration does not depend on the options exists in every option set: a
+    swap / assignment / copy-like constructor handles it in every option set. A statement of such a function that
+    touches the member of the *other* object (`other.m`, `a.m.swap(b.m)`) only under one arm of an `if constexpr` on
+    the options - and nowhere unconditionally, initialiser list included - is accepted only when the member's declared
+    type is option-dependent itself (a std::conditional / a dummy type); otherwise the member is skipped in the option
+    sets where the condition is false and the target keeps its own, stale value."""
+    n = 0
+    for c in F.classes:
+        if c['inst'] not in (0, 2) or c.get('unit') == 'mx_cls' or '/Persistence_matrix/' not in c['file']:
+            continue
+        ftypes = {fl['n']: (fl.get('t') or '') + ' ' + (fl.get('ct') or '') for fl in c['fields']}
+        if not ftypes:
+            continue
+        for fn in e1.class_functions(F, c):
+            kind = copy_like(c, fn)
+            if kind is None or fn.get('defaulted') or fn.get('body') is None or fn.get('inst') not in (0, 2):
+                continue
+            pnames = {q['n'] for q in fn.get('params', [])}
+            par = ir.parents(fn['body'])
+            ctx = {}            # member -> list of (guard or None, arm, node)
+            for ini in fn.get('inits') or []:
+                if isinstance(ini, dict) and ini.get('init') is not None:
+                    for x in ir.walk(ini['init']):
+                        if x.get('k') in ir.MEMBER_KINDS and x.get('n') in ftypes and x.get('c') and \
+                                (ir.skipcasts(x['c'][0]) or {}).get('n') in pnames:
+                            ctx.setdefault(x['n'], []).append((None, None, x))
+            for x in ir.walk(fn['body']):
+                if x.get('k') not in ir.MEMBER_KINDS or x.get('n') not in ftypes or not x.get('c'):
+                    continue
+                b = ir.skipcasts(x['c'][0])
+                if b is None or b.get('k') != 'DeclRefExpr' or b.get('n') not in pnames:
+                    continue
+                guard = arm = None
+                cur = x
+                while id(cur) in par:
+                    up = par[id(cur)]
+                    if up.get('k') == 'IfStmt' and up.get('constexpr') and cur is not up.get('cond'):
+                        guard, arm = up, ('then' if cur is up.get('then') else 'else')
+                        break
+                    cur = up
+                ctx.setdefault(x['n'], []).append((guard, arm, x))
+            for m, lst in ctx.items():
+                if any(g is None for g, _, _ in lst):
+                    continue                      # handled in every option set somewhere in the function
+                guards = {}
+                for g, a, x in lst:
+                    guards.setdefault(id(g), (g, set(), x))[1].add(a)
+                if any(arms == {'then', 'else'} for _, arms, _ in guards.values()):
+                    continue                      # both arms of one test handle it
+
+                def rebuilt(arm_node, m=m):
+                    return arm_node is not None and any(
+                        ir.write_target(y) is not None and
+                        ir.show(ir.write_target(y)).replace('this->', '') == m for y in ir.walk(arm_node))
+                if any(rebuilt(g_.get('else') if arms == {'then'} else g_.get('then')) for g_, arms, _ in guards.values()):
+                    continue                      # the other arm gives this object's member a value of its own
+                n += 1
+                g, arms, x = list(guards.values())[0]
+                t = ftypes[m]
+                ok = 'conditional' in t or 'Dummy' in t or 'dummy' in t
+                chk.ob('E1-field-unguarded', '%s %s: `%s` of the other object is only handled under `%s`: its type '
+                       'depends on the options' % (c['name'], kind, m, ir.show(g.get('cond'))[:50]),
+                       '%s:%s' % (rel(fn['file']), x.get('l')), ok,
+                       '' if ok else 'the member `%s` (%s) exists in every option set but is only %s when `%s`: elsewhere '
+                       'the target keeps its own stale value' % (m, t.split(' ')[0][:50],
+                                                                 'swapped' if kind == 'swap' else 'taken over',
+                                                                 ir.show(g.get('cond'))[:60]),
+                       key='E1|%s|%s|%s|unguarded' % (c['name'], kind.rstrip('+'), m))
+    chk.count('members handled under an option test in copy-like functions', n)
 
 
 def run_scalar_init(chk, F):
@@ -1165,6 +1243,7 @@ def run(tier, replay=None):
     run_conditional_bases(chk, F)
     run_scalar_init(chk, F)
     run_copy_counters(chk, F)
+    run_field_guards(chk, F)
     run_text_roundtrip(chk, F)
     run_moved_from(chk, F)
     run_moved_from_functions(chk, F)
